@@ -4,13 +4,16 @@ import json, os, re, glob
 def esc(x): return (x or "").replace("\n"," ").replace("|","/")
 def short(x,n=190):
     x=esc(x); return x if len(x)<=n else x[:n-3]+"..."
-r1=[]; r2=[]; r3=[]
+r1=[]; r2=[]; r3=[]; r4=[]
 for d in sorted(glob.glob('/verif/seeded/*/')):
     name=os.path.basename(d.rstrip('/'))
     try: m=json.load(open(d+'meta.json'))
     except Exception: continue
     if name.endswith('_neutralised'): continue
-    if '-3' in name:
+    if '-4' in name:
+        st=m.get('status','?')
+        r4.append(f"| {name} | {short(m.get('summary'))} | {st.replace('_',' ')} | {esc(m.get('detected_by'))} | `{short(m.get('detected_as'),120)}` | {esc(m.get('note'))} |")
+    elif '-3' in name:
         st=m.get('status','?')
         r3.append(f"| {name} | {short(m.get('summary'))} | {st.replace('_',' ')} | {esc(m.get('detected_by'))} | `{short(m.get('detected_as'),120)}` | {esc(m.get('note'))} |")
     elif '-2' in name:
@@ -22,6 +25,7 @@ for d in sorted(glob.glob('/verif/seeded/*/')):
         r1.append(f"| {name} | {short(m.get('summary'))} | {res} (by {by}) | `{short(m.get('detected_as'),120)}` | {esc(m.get('note'))} |")
 from collections import Counter
 c=Counter(json.load(open(d+'meta.json')).get('status') for d in glob.glob('/verif/seeded/*-2?/'))
+c4=Counter(json.load(open(d+'meta.json')).get('status') for d in glob.glob('/verif/seeded/*-4?/'))
 c3=Counter(json.load(open(d+'meta.json')).get('status') for d in glob.glob('/verif/seeded/*-3?/'))
 text=f'''## 8. Detection results: seeded changes
 
@@ -115,6 +119,21 @@ append-first phase found that the first append after a restart extends a stale c
 93ac88a, which also closed a known finding), and the queued-mutation histories made the
 timed-out shell tool reportable (fix 3b04891; until then recorded as a limit of the check).
 
+### 8.4 Round 4: a further round for four properties
+
+With the time that was left, C05, C07, C08 and C11 got a fourth round (three changes each, the
+summaries of all earlier changes attached; one agent delivered two). {len(r4)} changes; archived as
+`/verif/seeded/<id>-4a`, `-4b`, `-4c`.
+
+| id | seeded change (one line) | status | detected by | detected as | what it took / why not |
+|----|--------------------------|--------|-------------|-------------|------------------------|
+'''+"\n".join(r4)+f'''
+
+Status counts: {dict(c4)}. Five of eleven were caught as built - three of them by parts that
+round 3 had added (job cases with a blocked artifact store, timed-out-holder histories, the
+wrong-kind-id sweep), which is the first sign of the strengthenings generalising. One is not
+covered (C05-4a: it needs three concurrent writers at a crash point).
+
 `tools/seed_regression.sh` re-applies every archived change to /repo, runs the check named in
 its meta.json and reverts; its last output is `/verif/seeded/REGRESSION.md`.
 '''
@@ -123,4 +142,4 @@ s=open(p).read()
 i=s.index("## 8. Detection results: seeded changes")
 s=s[:i]+text
 open(p,'w').write(s)
-print("section 8 regenerated:", len(r1), "round-1 rows,", len(r2), "round-2 rows,", len(r3), "round-3 rows")
+print("section 8 regenerated:", len(r1), "round-1 rows,", len(r2), "round-2 rows,", len(r3), "round-3 rows,", len(r4), "round-4 rows")
